@@ -38,12 +38,17 @@ Inductive xop :=
   | XU (o : uop)                          (* an operation of Model/Upload.v on the writer in hand *)
   | XMark                                 (* remember ID() of the writer in hand *)
   | XResumeMark (m : rmode) (hint : Z)    (* PushBlobChunkedResume(remembered id, offset by mode, hint) *)
-  | XFault (plan : list Z).               (* install a fault plan in front of the server *)
+  | XFault (plan : list Z)                (* install a fault plan in front of the server *)
+  | XForget.                              (* the registries underneath lose everything they hold (a restart of an
+                                             in-memory registry, expired sessions): the ids the script remembers are
+                                             well formed but name uploads the registry has never seen; the writer in
+                                             hand is dropped *)
 
 Section XScript.
   Context {S W I : Type}.
   Variable B : ubackend S W I.
   Variable setf : S -> list Z -> S.
+  Variable forget : S -> S.
   Variable repo : bytes.
 
   Definition x_step (st : S) (cur : option W) (mark : option I) (o : xop) : S * option W * option I * ures :=
@@ -55,13 +60,22 @@ Section XScript.
         | None => (st, cur, mark, UBroken)
         end
     | XResumeMark m hint =>
-        match cur, mark with
-        | Some w, Some id =>
-            let off := match m with MSize => ub_size B st w | MInfo => -1 | MAt z => z end in
-            let '(st1, cur1, r) := new_writer cur (ub_resume B st repo id off hint) in (st1, cur1, mark, r)
-        | _, _ => (st, cur, mark, UBroken)
+        match mark with
+        | Some id =>
+            let off := match m with
+                       | MSize => option_map (ub_size B st) cur
+                       | MInfo => Some (-1)
+                       | MAt z => Some z
+                       end in
+            match off with
+            | Some off =>
+                let '(st1, cur1, r) := new_writer cur (ub_resume B st repo id off hint) in (st1, cur1, mark, r)
+            | None => (st, cur, mark, UBroken)
+            end
+        | None => (st, cur, mark, UBroken)
         end
     | XFault plan => (setf st plan, cur, mark, UOk 0)
+    | XForget => (forget st, None, mark, UOk 0)
     end.
 
   Fixpoint run_x (st : S) (cur : option W) (mark : option I) (ops : list xop) : S * list uobs :=
